@@ -111,6 +111,7 @@ func GenOp(t *rapid.T, faults int) Op {
 	case "remove":
 		fault("remove")
 	}
+	op.CtxDone = rapid.IntRange(0, 11).Draw(t, "ctxdone") == 0
 	return op
 }
 
